@@ -686,6 +686,26 @@ pub fn gen_engines(w: &mut impl Write, thorough: bool, seed: u64) {
             if mem_len > 0 { p.extend(ins(0x71, 4, 2, 0, 0)); p.extend(ins(0x71, 5, 3, -1, 0)); p.extend(ins(0x67, 0, 0, 0, 8)); p.extend(ins(0x0f, 0, 4, 0, 0)); p.extend(ins(0x67, 0, 0, 0, 8)); p.extend(ins(0x0f, 0, 5, 0, 0)); }
             p.extend(EXIT); writeln!(w, "exec tag=context prog={} {}", hex(&p), tail).unwrap(); }
     } } } }
+    // (3b) the base of ldabs/ldind (F39, F40): (i) the immediate of ldind is added zero-extended, so a negative immediate can be
+    //      compensated by the index register to land inside the packet; (ii) with an empty packet the base is null for every engine,
+    //      so an index register holding a stack address lands on that very stack byte
+    for kind in ["mbuff", "raw", "fixed"] { for (wi, &opc) in [0x50u8, 0x48, 0x40, 0x58].iter().enumerate() { let width = [1usize, 2, 4, 8][wi];
+        for imm in [-1i32, -8, i32::MIN, i32::MAX, 5, 0] { for t in [0usize, 3, 16 - width] {
+            let mem = pattern(16, 23);
+            let src = (t as u64).wrapping_sub(imm as u32 as u64);
+            let mut p = vec![]; p.extend(lddw(3, src)); p.extend(ins(opc, 0, 3, 0, imm)); p.extend(EXIT);
+            writeln!(w, "exec tag=context prog={} mem={} mbuff=- budget=300 engines=jit,clif kind={} fixoff=0:8", hex(&p), hex(&mem), kind).unwrap();
+        } } } }
+    for kind in ["mbuff", "raw", "nodata", "fixed"] { for (wi, &opc) in [0x50u8, 0x48, 0x40, 0x58].iter().enumerate() { let width = [1i32, 2, 4, 8][wi];
+        for back in [width, width + 1, 16, 512] { for imm in [0i32, 1, -1] {
+            // distinct bytes in the top 16 and the bottom 16 bytes of the stack, then ldind through r3 = r10 - back - imm
+            let mut p = vec![];
+            p.extend(lddw(2, 0x1817161514131211)); p.extend(ins(0x7b, 10, 2, -8, 0)); p.extend(lddw(2, 0x2827262524232221)); p.extend(ins(0x7b, 10, 2, -16, 0));
+            p.extend(lddw(2, 0x3837363534333231)); p.extend(ins(0x7b, 10, 2, -512, 0)); p.extend(lddw(2, 0x4847464544434241)); p.extend(ins(0x7b, 10, 2, -504, 0));
+            p.extend(ins(0xbf, 3, 10, 0, 0)); p.extend(ins(0x07, 3, 0, 0, -back)); p.extend(lddw(4, imm as u32 as u64)); p.extend(ins(0x1f, 3, 4, 0, 0));
+            p.extend(ins(opc, 0, 3, 0, imm)); p.extend(EXIT);
+            writeln!(w, "exec tag=context prog={} mem=- mbuff=- budget=300 engines=jit,clif kind={} fixoff=0:8", hex(&p), kind).unwrap();
+        } } } }
     // (4) helper contract (C08): argument order, r6..r9 preserved, ldabs after a helper call, calls inside local functions at depth 0..3, unknown ids
     for depth in 0..4usize { for id in [0u32, 1, 0x7fff_ffff, 0x8000_0000, 0xffff_ffff, 3] { for reg_ok in [true, false] {
         let mut s: Vec<[u8; 8]> = vec![];
